@@ -284,6 +284,39 @@ func libraryGoroutines() []string {
 // blockedSignature summarises the library goroutines' states; two equal
 // signatures in a row many times over = stable blocked state.
 func blockedSignature() string {
+	// Quiescence guard: a hang is only counted while NO goroutine of the
+	// process (other than this monitor, which is the one "running") is
+	// running, runnable or in a system call. On a loaded machine a transport
+	// goroutine that is merely waiting for a CPU would otherwise look like a
+	// stable state; with this guard only "everybody is blocked and nobody can
+	// wake anybody" accumulates observations.
+	buf := make([]byte, 1<<20)
+	for {
+		n := runtime.Stack(buf, true)
+		if n < len(buf) {
+			buf = buf[:n]
+			break
+		}
+		buf = make([]byte, 2*len(buf))
+	}
+	running := 0
+	for _, blk := range strings.Split(string(buf), "\n\n") {
+		hdr := blk
+		if i := strings.IndexByte(hdr, '\n'); i >= 0 {
+			hdr = hdr[:i]
+		}
+		i := strings.IndexByte(hdr, '[')
+		if i < 0 {
+			continue
+		}
+		st := hdr[i+1:]
+		if strings.HasPrefix(st, "running") || strings.HasPrefix(st, "runnable") || strings.HasPrefix(st, "syscall") {
+			running++
+		}
+	}
+	if running > 1 {
+		return ""
+	}
 	var sb strings.Builder
 	for _, g := range libraryGoroutines() {
 		lines := strings.Split(g, "\n")
